@@ -35,6 +35,8 @@ RULES = {
              'between leave (election) and replicate-leave',
     'C07.e': 'each wait loop of the election has an exit controlled by a counter incremented in the loop and compared with the '
              'election timeout; the single-member shortcut wins at once',
+    'C07.j': 'the election never ends undecided: every return of start_election is preceded by election_win, by the false edge of an '
+             'is_eligible() test, or by the error arm of the candidacy announcement',
 }
 
 ROLE = 'nundb::bo::ClusterRole'
@@ -370,6 +372,32 @@ def _run(ck, m):
               'already yielded to an older live candidate (role Secondary) still claims the primary role when an ack can never arrive'
               % [sb.loc(w) for w in wins], sb.loc(h))
     ck.floor('C07.f', n_ack, 1, 'wait loops on is_full_acknowledged')
+    # ---- (j) the election never ends undecided --------------------------------------------------
+    # start_election is entered in role StartingUp.  Each way out either claims the role (election_win), or leaves on the false edge of
+    # an is_eligible() test (another node claimed or is running), or on the error arm of the send that announces the candidacy.
+    # Any other return leaves the node StartingUp with nobody left to decide.
+    all_wins = {x for x in sb.reachable() if sb.term(x)['k'] == 'call' and callee(sb.term(x)) == wb.id}
+    blocked = set(all_wins)
+    for x in sb.reachable():
+        tx = sb.term(x)
+        if tx['k'] != 'call':
+            continue
+        if callee(tx).endswith('bo::Databases::is_eligible'):
+            for (s2, tt, ft) in bool_switches(sb, x):
+                blocked.add(ft)
+        # the announcement: a Result-returning send whose Err arm gives up
+        cb_ = P.bodies.get(callee(tx))
+        if cb_ is not None and cb_.locals[0].startswith('std::result::Result<') and repl.sends_repl(m, cb_.id):
+            for (s2, tm_, els, adt) in core.enum_switches(sb, x):
+                if adt == 'std::result::Result':
+                    blocked.add(tm_.get('1', els))
+    rets = set(sb.return_blocks())
+    esc = sorted(rets & set(sb.reach_from([0], stop=lambda y: y in blocked, include_start=True)) - blocked)
+    ck.ob('C07.j', short(sb.id), 'every-exit-decides', not esc,
+          'every return of the election follows a claim, a failed eligibility test or a failed announcement' if not esc else
+          'the election can return at %s without claiming the role and without having seen that it is no longer eligible: the node stays '
+          'StartingUp; with the old primary gone and no other candidate (the last node alive, whose only peer never acknowledges) nobody '
+          'ever becomes primary' % [sb.loc(y) for y in esc], sb.loc(esc[0]) if esc else '')
     # single member shortcut: count_cluster_members() <= 1 -> election_win + return
     okm = False
     for bi, t in sb.calls():
